@@ -74,8 +74,15 @@ impl<'a> AnsiElementIterator<'a> {
         let mut performer = Performer::default();
         self.machine.advance(&mut performer, byte);
         self.element = performer.element;
-        self.text_length += performer.text_length;
         self.pos += 1;
+        if performer.text_length > 0 && self.element.is_none() {
+            // Text resumes: whatever was consumed since `start` without ending in an element
+            // (an escape sequence aborted by CAN or SUB, or otherwise left unfinished) is
+            // accounted for as text, so that element ranges always cover the whole string.
+            self.text_length = self.pos - self.start;
+        } else {
+            self.text_length += performer.text_length;
+        }
     }
 }
 
@@ -110,9 +117,12 @@ impl Iterator for AnsiElementIterator<'_> {
             return Some(element);
         }
 
-        if self.text_length > 0 {
+        if self.pos > self.start {
+            // Trailing text, including an escape sequence cut off at the end of the string.
+            let start = self.start;
+            self.start = self.pos;
             self.text_length = 0;
-            return Some(Element::Text(self.start, self.pos));
+            return Some(Element::Text(start, self.pos));
         }
 
         None
